@@ -962,15 +962,20 @@ def impl(c):
 
 
 # ------------------------------------------------------------------ model side
-def _oracle_id(c, o):
-    """the answer of the id oracle for this case: the implementation's compute_hash (hex) or the error it raises"""
+def _oracle_id(make):
+    """the answer of the id oracle for this case: compute_hash() of the object `make(id)` builds with a dummy
+    explicit id (hex), or the error class compute_hash raises"""
     from .core import exc_class
     try:
-        if hasattr(o, "compute_hash"):
-            return o.compute_hash().hex()
+        o = make(b"\x01" * 20)
+    except Exception:
+        return "00" * 20                  # no such object whatever the id: the oracle is never asked
+    if not hasattr(o, "compute_hash"):
+        return "00" * 20
+    try:
+        return o.compute_hash().hex()
     except Exception as e:
         return "!" + exc_class(e)
-    return "00" * 20
 
 
 def _origin_id(d):
@@ -1005,30 +1010,20 @@ def requests(c):
             o = realize(spec)
         except Exception:
             o = None
-        base = None
-        if c["cls"] in HASHABLE:
-            try:
-                base = realize(SObj(spec.cls, [(n, v) for n, v in spec.fields if n != "id"]))
-            except Exception:
-                base = None
-        oid = _oracle_id(c, base if base is not None else o)
+        oid = _oracle_id(lambda i: realize(SObj(spec.cls, [(n, v) for n, v in spec.fields if n != "id"] + [("id", i)])))
         reqs.append("new %s %s %s" % (c["cls"], oid, kw))
         if o is not None:
             reqs.append("rt %s %s %s" % (c["cls"], oid, enc(abstract(o))))
         return reqs
+    def oid_for(d):
+        if not isinstance(d, dict):
+            return "00" * 20
+        return _oracle_id(lambda i: _cls(c["cls"]).from_dict({**copy.deepcopy(d), "id": i}))
     d = realize(dec(c["w"]))
-    try:
-        o = _cls(c["cls"]).from_dict(copy.deepcopy(d))
-    except Exception:
-        o = None
-    reqs.append("fd %s %s %s %s" % (c["cls"], _oracle_id(c, o), _origin_id(d), c["w"]))
+    reqs.append("%s %s %s %s %s" % (c.get("op", "fd"), c["cls"], oid_for(d), _origin_id(d), c["w"]))
     if c.get("w2"):
         d2 = realize(dec(c["w2"]))
-        try:
-            o2 = _cls(c["cls"]).from_dict(copy.deepcopy(d2))
-        except Exception:
-            o2 = None
-        reqs.append("fd %s %s %s %s" % (c["cls"], _oracle_id(c, o2), _origin_id(d2), c["w2"]))
+        reqs.append("fd %s %s %s %s" % (c["cls"], oid_for(d2), _origin_id(d2), c["w2"]))
     return reqs
 
 
@@ -1191,7 +1186,7 @@ def type_code(t):
     """attrs field type -> the type code of model/Codec.v"""
     s = str(t).replace("typing.", "").replace("swh.model.model.", "").replace("swh.model.swhids.", "") \
         .replace("swh.model.collections.", "").replace("datetime.datetime", "datetime")
-    s = s.replace("<class '", "").replace("'>", "")
+    s = s.replace("<class '", "").replace("<enum '", "").replace("'>", "").replace(" ", "")
     return s
 
 
